@@ -339,7 +339,9 @@ class IPPO(MultiAgentRLAlgorithm):
         """
         # Get dict of form {"agent_id" : [1, 0, 0, 0]...} etc
         action_masks = {homo_id: [] for homo_id in self.shared_agent_ids}
-        for agent_id, info in infos.items():
+        # NOTE: Iterate in the order of the agent ids, as observations and outputs do
+        for agent_id in self.agent_ids:
+            info = infos.get(agent_id)
             if isinstance(info, dict):
                 homo_id = self.get_homo_id(agent_id)
                 action_masks[homo_id].append(
